@@ -11,7 +11,14 @@ Description IR (JSON-able):
                                                                         ("bit" = BIT-POSITION of a sub-byte value that
                                                                         shares its byte with a sub-byte constant)
             | {"k": "mrp", "name", "pos", "rqpos", "n"}                MATCHING-REQUEST-PARAM
-            | {"k": "nrc", "name", "pos", "vals": [int, ...]}          NRC-CONST, 8 bit, overlapped by a VALUE
+            | {"k": "nrc", "name", "pos", "vals": [int, ...][, "bit", "len"]}
+                                                                        NRC-CONST (8 bit, or "len" bits at BIT-POSITION
+                                                                        "bit"), overlapped by a VALUE of the same extent
+
+Any parameter may carry "imp": true = the BYTE-POSITION is omitted in the XML; the generator only
+sets it where the ODX cursor rule (byte after the end of the previously listed parameter) yields
+the same "pos".  VALUE parameters may have any length 1..16 and a BIT-POSITION, so they can cross
+a byte boundary (e.g. 8 bits at bit 4).
 
 All parameters carry an explicit BYTE-POSITION; "bit" is the BIT-POSITION (0 except for
 sub-byte constants).  Wire rules (ODX): an n-bit unsigned value at bit position b of a
@@ -33,7 +40,7 @@ def param_span(p) -> tuple[int, int]:
     if k == "mrp":
         return p["pos"], p["n"]
     if k == "nrc":
-        return p["pos"], 1
+        return p["pos"], (p.get("bit", 0) + p.get("len", 8) + 7) // 8
     return p["pos"], (p.get("bit", 0) + p["len"] + 7) // 8
 
 
@@ -98,10 +105,14 @@ def decode_values(obj, msg: bytes) -> dict:
         elif k == "val":
             out[p["name"]] = _extract(msg, p["pos"], p.get("bit", 0), p["len"], p["hl"])
         elif k == "nrc":
-            out[p["name"]] = msg[p["pos"]]
+            out[p["name"]] = nrc_value(msg, p)
         elif k == "mrp":
             out[p["name"]] = bytes(msg[p["pos"]:p["pos"] + p["n"]])
     return out
+
+
+def nrc_value(msg: bytes, p) -> int:
+    return _extract(msg, p["pos"], p.get("bit", 0), p.get("len", 8), True)
 
 
 def const_prefix(obj, rq_prefix: bytes = b"") -> bytes:
@@ -162,7 +173,7 @@ def fit(obj, msg: bytes, rq_prefix: bytes | None) -> Fit:
                 return Fit(NOT, "const", obj=obj)
         elif k == "nrc":
             in_run = False
-            if msg[p["pos"]] not in p["vals"]:
+            if nrc_value(msg, p) not in p["vals"]:
                 return Fit(NOT, "nrc", obj=obj)
         elif k == "val":
             in_run = False
@@ -259,7 +270,8 @@ def dop_id(nbits: int, hl: bool) -> str:
 
 def _param_xml(p) -> str:
     k = p["k"]
-    head = f'<SHORT-NAME>{p["name"]}</SHORT-NAME><BYTE-POSITION>{p["pos"]}</BYTE-POSITION>'
+    head = f'<SHORT-NAME>{p["name"]}</SHORT-NAME>' + \
+        ("" if p.get("imp") else f'<BYTE-POSITION>{p["pos"]}</BYTE-POSITION>')
     if k == "cc":
         bit = f'<BIT-POSITION>{p["bit"]}</BIT-POSITION>' if p.get("bit", 0) else ""
         return (f'<PARAM xsi:type="CODED-CONST">{head}{bit}<CODED-VALUE>{p["val"]}</CODED-VALUE>'
@@ -272,8 +284,9 @@ def _param_xml(p) -> str:
                 f'</REQUEST-BYTE-POS><BYTE-LENGTH>{p["n"]}</BYTE-LENGTH></PARAM>')
     if k == "nrc":
         cv = "".join(f"<CODED-VALUE>{v}</CODED-VALUE>" for v in p["vals"])
-        return (f'<PARAM xsi:type="NRC-CONST">{head}<CODED-VALUES>{cv}</CODED-VALUES>'
-                f'{_dct(8, True)}</PARAM>')
+        bit = f'<BIT-POSITION>{p["bit"]}</BIT-POSITION>' if p.get("bit", 0) else ""
+        return (f'<PARAM xsi:type="NRC-CONST">{head}{bit}<CODED-VALUES>{cv}</CODED-VALUES>'
+                f'{_dct(p.get("len", 8), True)}</PARAM>')
     raise ValueError(k)
 
 
@@ -285,7 +298,7 @@ def _obj_xml(tag: str, oid: str, obj) -> str:
 
 def layer_xml(layer) -> bytes:
     dops = ""
-    for nbits in (1, 2, 3, 4, 5, 6, 7, 8, 16):
+    for nbits in range(1, 17):
         for hl in (True, False):
             i = dop_id(nbits, hl)
             dops += (f'<DATA-OBJECT-PROP ID="{i}"><SHORT-NAME>{i}</SHORT-NAME><COMPU-METHOD>'
